@@ -54,7 +54,7 @@ class C05(object):
                    'comments (free-text descriptions) are not scanned for placeholders']
     required_counters = ('models.judged', 'lhs.judged', 'rhs_names.judged', 'meaning.judged', 'embedded.judged',
                          'embedded.in_global_equation', 'placeholders.handed_out', 'embedded.form.term_product',
-                         'embedded.form.term_ratio', 'embedded.form.string_rhs', 'late_sector.declared',
+                         'embedded.form.term_ratio', 'embedded.form.string_rhs', 'embedded.form.exogenous', 'late_sector.declared',
                          'codes_generated_mid_construction', 'built_by_step_runner',
                          'rebuilt_with_names_kept_from_before_first_build')
 
@@ -118,7 +118,7 @@ class C05(object):
                 name = tsec.GetVariableName(tl)
                 was_ph = PLACEHOLDER.match(name) is not None
                 where = rng.choice(['other', 'other', 'same', 'global'])
-                form = rng.choice(['blob', 'blob', 'term_product', 'term_ratio', 'term_minus', 'string_rhs'])
+                form = rng.choice(['blob', 'blob', 'term_product', 'term_ratio', 'term_minus', 'string_rhs', 'exogenous'])
                 var = 'XTRA%d' % i
                 if where == 'global':
                     mod.AddGlobalEquation('glob_%d' % i, 'a model-level equation', '2.0*%s + 1.0' % name)
@@ -128,7 +128,12 @@ class C05(object):
                 if var in holder.EquationBlock:
                     continue
                 second = None
-                if form == 'blob':
+                if form == 'exogenous':
+                    # an exogenous DEFINITION that names another variable: the solver cannot evaluate it (exogenous
+                    # series are literals), but the emitted text must still carry the canonical name, not the placeholder
+                    holder.AddVariable(var, 'exogenous definition naming a requested variable', '0.0')
+                    holder.SetExogenous(var, name)
+                elif form == 'blob':
                     holder.AddVariable(var, 'embeds a requested name', '2.0*%s + 1.0' % name)
                 elif form == 'term_product':
                     holder.AddVariable(var, 'embeds a requested name in a product term', '')
@@ -331,6 +336,20 @@ class C05(object):
                 else:
                     hfc = (holder.Parent.Code + '_' + holder.Code) if multi else holder.Code
                     row = hfc + '__' + var
+                if form == 'exogenous':
+                    if salt != 1:
+                        continue
+                    exo_rows = dict(blk['exo'])
+                    rec.count('embedded.judged')
+                    rec.count('embedded.form.exogenous')
+                    if was_ph:
+                        rec.count('embedded.was_placeholder')
+                    if row not in exo_rows:
+                        rec.violate('embedded_equation_missing', {'row': row, 'target': target, 'form': form})
+                    elif exo_rows[row].replace(' ', '') != target:
+                        rec.violate('embedded_name_resolved_to_wrong_variable', {'row': row, 'rhs': exo_rows[row],
+                                                                                  'requested': target, 'form': form})
+                    continue
                 if row not in emitted or target not in val:
                     rec.violate('embedded_equation_missing', {'row': row, 'target': target})
                     continue
